@@ -11,7 +11,8 @@ CONSTANTS
   ShrinkFrom = 1000000
   AppendOnly = FALSE
   Persist = FALSE
+  WithTree = FALSE
   EmitDepth = 150
   FanFrom = 150
-INVARIANTS WellFormed Refines EmitWalk
+INVARIANTS EmitWalk
 CHECK_DEADLOCK FALSE
